@@ -50,6 +50,10 @@ type Prog struct {
 	fileCache map[string][]byte
 	funcDecl  map[*ssa.Function]*ast.FuncDecl
 	sch       *schemaRes // name anchors resolved against the frozen schema (schema.go)
+	// higher-order helpers (`dict.forEach(visit)`): the call of the function-valued parameter inside the helper is
+	// resolved per call site of the helper, not to every function ever passed to it
+	liftedAway  map[ssa.CallInstruction]bool
+	liftedExtra map[ssa.CallInstruction][]*ssa.Function
 }
 
 func baseEnv() []string {
@@ -155,6 +159,7 @@ func Load(root string, bc BuildConfig) (p *Prog, err error) {
 			}
 		}
 	}
+	p.liftHigherOrder()
 	p.funcDecl = map[*ssa.Function]*ast.FuncDecl{}
 	for _, f := range root0.Syntax {
 		for _, d := range f.Decls {
@@ -230,6 +235,24 @@ func (p *Prog) SrcFuncs() []*ssa.Function {
 
 // Callees resolves a call site: the static callee, or the VTA callee set.
 func (p *Prog) Callees(c ssa.CallInstruction) []*ssa.Function {
+	if f := c.Common().StaticCallee(); f != nil {
+		if extra := p.liftedExtra[c]; len(extra) > 0 {
+			return append([]*ssa.Function{f}, extra...)
+		}
+		return []*ssa.Function{f}
+	}
+	if p.liftedAway[c] {
+		return nil
+	}
+	out := p.siteOut[c]
+	sort.Slice(out, func(i, j int) bool { return out[i].String() < out[j].String() })
+	return out
+}
+
+// CalleesData: the callees of a call site for analyses that follow values (arguments into parameters, results back): the
+// static callee or the VTA set, without the lifting of higher-order helpers — the values a visitor receives are passed at
+// the call inside the helper, not at the helper's call site.
+func (p *Prog) CalleesData(c ssa.CallInstruction) []*ssa.Function {
 	if f := c.Common().StaticCallee(); f != nil {
 		return []*ssa.Function{f}
 	}
@@ -382,4 +405,161 @@ func (p *Prog) source(file string) []byte {
 	b, _ := os.ReadFile(file)
 	p.fileCache[file] = b
 	return b
+}
+
+
+// liftHigherOrder makes the call graph context-sensitive for one idiom: a small package function H with a function-
+// valued parameter q that H only ever *calls* (never stores, returns or passes on), that starts no goroutine and touches
+// no mutex. When every call site of H passes a function that is known there (a closure made in place, a named function,
+// a bound method), the call `q(...)` inside H is attributed to each call site of H instead of to H: the site
+// `d.forEach(func…)` calls forEach and that one closure. Without this, extracting a loop into `forEach(visit)` merges
+// every visitor into every caller (a read-only command "reaches" the mutation made by another command's visitor).
+func (p *Prog) liftHigherOrder() {
+	p.liftedAway = map[ssa.CallInstruction]bool{}
+	p.liftedExtra = map[ssa.CallInstruction][]*ssa.Function{}
+	type hp struct {
+		h   *ssa.Function
+		idx int
+	}
+	var cands []hp
+	// touchesSync: the function, or anything it calls (the function-valued parameters aside), starts a goroutine or
+	// calls into package sync — the calls it makes through its parameter must then keep their place inside it
+	memo := map[*ssa.Function]int{}
+	var touchesSync func(f *ssa.Function, depth int) bool
+	touchesSync = func(f *ssa.Function, depth int) bool {
+		switch memo[f] {
+		case 1:
+			return true
+		case 2, 3:
+			return false
+		}
+		if depth > 12 {
+			return true
+		}
+		memo[f] = 3
+		r := false
+		for _, in := range instrsOf(f) {
+			switch x := in.(type) {
+			case *ssa.Go:
+				r = true
+			case ssa.CallInstruction:
+				if _, isParam := x.Common().Value.(*ssa.Parameter); isParam {
+					continue
+				}
+				cal := []*ssa.Function{}
+				if g := x.Common().StaticCallee(); g != nil {
+					cal = append(cal, g)
+				} else {
+					cal = append(cal, p.siteOut[x]...)
+				}
+				for _, g := range cal {
+					if g.Pkg != nil && g.Pkg.Pkg.Path() == "sync" {
+						r = true
+					} else if g.Pkg == p.SPkg || fnInPkg(g, p.SPkg) {
+						if touchesSync(g, depth+1) {
+							r = true
+						}
+					}
+				}
+			}
+		}
+		if r {
+			memo[f] = 1
+		} else {
+			memo[f] = 2
+		}
+		return r
+	}
+	for _, h := range p.srcFuncs {
+		if h.Blocks == nil {
+			continue
+		}
+		if touchesSync(h, 0) {
+			continue
+		}
+		for i, q := range h.Params {
+			if _, isSig := q.Type().Underlying().(*types.Signature); !isSig {
+				continue
+			}
+			onlyCalled := len(referrers(q)) > 0
+			for _, r := range referrers(q) {
+				call, ok := r.(*ssa.Call)
+				if !ok || call.Call.Value != ssa.Value(q) {
+					onlyCalled = false
+					break
+				}
+				for _, a := range call.Call.Args {
+					if a == ssa.Value(q) {
+						onlyCalled = false
+					}
+				}
+			}
+			if onlyCalled {
+				cands = append(cands, hp{h, i})
+			}
+		}
+	}
+	for _, cd := range cands {
+		// every call site of H must be a static call that passes a known function
+		type siteFn struct {
+			site ssa.CallInstruction
+			fn   *ssa.Function
+		}
+		var resolved []siteFn
+		ok := true
+		nsites := 0
+		for _, fn := range p.srcFuncs {
+			for _, in := range instrsOf(fn) {
+				// H used as a value anywhere: give up
+				var ops []*ssa.Value
+				for _, op := range in.Operands(ops) {
+					if *op == ssa.Value(cd.h) {
+						if ci, isCall := in.(ssa.CallInstruction); !isCall || ci.Common().Value != ssa.Value(cd.h) {
+							ok = false
+						}
+					}
+				}
+				ci, isCall := in.(ssa.CallInstruction)
+				if !isCall || ci.Common().StaticCallee() != cd.h {
+					continue
+				}
+				nsites++
+				if cd.idx >= len(ci.Common().Args) {
+					ok = false
+					continue
+				}
+				var g *ssa.Function
+				switch a := stripValue(ci.Common().Args[cd.idx]).(type) {
+				case *ssa.MakeClosure:
+					g, _ = a.Fn.(*ssa.Function)
+				case *ssa.Function:
+					g = a
+				}
+				if g == nil {
+					ok = false
+					continue
+				}
+				resolved = append(resolved, siteFn{ci, g})
+			}
+		}
+		if !ok || nsites == 0 {
+			continue
+		}
+		for _, r := range referrers(cd.h.Params[cd.idx]) {
+			if call, isCall := r.(*ssa.Call); isCall {
+				p.liftedAway[call] = true
+			}
+		}
+		for _, sf := range resolved {
+			p.liftedExtra[sf.site] = append(p.liftedExtra[sf.site], sf.fn)
+			// a bound-method closure (`m.forEach(newDict.store)`): the wrapper's one call is the method
+			if sf.fn.Synthetic != "" && len(sf.fn.Blocks) == 1 {
+				for _, in := range sf.fn.Blocks[0].Instrs {
+					if c2, ok := in.(*ssa.Call); ok && c2.Call.StaticCallee() != nil {
+						p.liftedExtra[sf.site] = append(p.liftedExtra[sf.site], c2.Call.StaticCallee())
+					}
+				}
+			}
+		}
+	}
 }
